@@ -33,8 +33,15 @@ func RunConc(w *tr.Writer, st *ConcStats, tid int, r *rand.Rand, withMissing boo
 	w.NextTrace()
 	st.Traces++
 	var db util.NodeDB = util.NewMemoryNodeDB()
-	if r.Intn(2) == 0 {
+	// sharedSave: the usual arrangement of a block's trie - a memory level over the state store - whose changes are saved
+	// INTO that state store while readers of the same trie read through to it
+	var stateDB *util.MemoryNodeDB
+	switch r.Intn(3) {
+	case 0:
 		db = util.NewLevelNodeDB(util.NewMemoryNodeDB(), util.NewMemoryNodeDB(), false)
+	case 1:
+		stateDB = util.NewMemoryNodeDB()
+		db = util.NewLevelNodeDB(util.NewMemoryNodeDB(), stateDB, false)
 	}
 	t := util.NewMerklePatriciaTrie(db, 1, nil, NewTxnCache())
 	// initial content
@@ -53,6 +60,14 @@ func RunConc(w *tr.Writer, st *ConcStats, tid int, r *rand.Rand, withMissing boo
 		initItems = append(initItems, bridge.Item{Path: []byte(p), Value: []byte(v)})
 	}
 	sort.Slice(initItems, func(i, j int) bool { return string(initItems[i].Path) < string(initItems[j].Path) })
+	if stateDB != nil {
+		// the initial content lives in the state store; the block's trie starts from its root with an empty level
+		if err := t.SaveChanges(context.Background(), stateDB, false); err != nil {
+			panic(err)
+		}
+		db = util.NewLevelNodeDB(util.NewMemoryNodeDB(), stateDB, false)
+		t = util.NewMerklePatriciaTrie(db, 1, t.GetRoot(), NewTxnCache())
+	}
 	judged := true
 	if withMissing {
 		// remove one non-root node so that readers run into a missing node (race-only run)
@@ -165,6 +180,13 @@ func RunConc(w *tr.Writer, st *ConcStats, tid int, r *rand.Rand, withMissing boo
 						snapshot(ret, root, snap)
 						return "ok"
 					default:
+						if stateDB != nil && rr.Intn(2) == 0 {
+							// save into the state store the trie reads through (not judged as a snapshot: the store is shared)
+							if err := t.SaveChanges(context.Background(), stateDB, false); err != nil {
+								return "err"
+							}
+							return "ok"
+						}
 						fresh := util.NewMemoryNodeDB()
 						if err := t.SaveChanges(context.Background(), fresh, false); err != nil {
 							return "err"
